@@ -14,7 +14,10 @@ Inductive cstep :=
 | SRemove (f : N) (d : dump)
 | SHide (f : N) (d : dump)
 | SClear (d : dump)
-| SFind (q : str) (ret : option N).
+| SFind (q : str) (ret : option N)
+(* a configuration change (update_config + set_module_extract_patterns): new patterns, fuzzy flag, moduleMap (as the
+   rewrite function observed on every string it is applied to during this configuration) *)
+| SSetCfg (patterns : list str) (fuzzy : bool) (rw_on : bool) (rw : list (str * str)) (d : dump).
 
 Record case := mkCase {
   k_patterns : list str;
@@ -22,7 +25,7 @@ Record case := mkCase {
   k_fuzzy : bool;
   k_rw_on : bool;
   k_rw : list (str * str);               (* the rewrite function, on every string it is applied to *)
-  k_mp : list (str * option str);        (* match_pattern observations *)
+  k_mp : list (list str * str * option str);   (* match_pattern observations: patterns installed, path, result *)
   k_steps : list cstep;
   k_sizes : list N                       (* verif_sizes of the final state (first six entries) *)
 }.
@@ -105,22 +108,28 @@ Fixpoint check_steps (c : cfg) (s : midx) (steps : list cstep) : bool :=
       | SHide f d => let s' := m_hide f s in dump_eqb s' d && check_steps c s' r
       | SClear d => let s' := m_clear s in dump_eqb s' d && check_steps c s' r
       | SFind q ret => optN_eqb (option_map i_file (find_module c s q)) ret && check_steps c s r
+      | SSetCfg pats fz rwon rw d =>
+          dump_eqb s d
+          && check_steps (mkCfg pats (c_workspaces c) fz rwon (fun x => match sget x rw with Some o => o | None => x end)) s r
       end
   end.
 
-Definition final_state (c : cfg) (steps : list cstep) : midx :=
-  fold_left (fun s st =>
+Definition final_state (c0 : cfg) (steps : list cstep) : midx :=
+  snd (fold_left (fun (cs : cfg * midx) st =>
+               let '(c, s) := cs in
                match st with
-               | SAddPath f path _ _ _ => fst (m_add_path c f path s)
-               | SAddMod f mp ws _ => m_add c f mp ws s
-               | SRemove f _ => m_remove f s
-               | SHide f _ => m_hide f s
-               | SClear _ => m_clear s
-               | SFind _ _ => s
-               end) steps m_init.
+               | SAddPath f path _ _ _ => (c, fst (m_add_path c f path s))
+               | SAddMod f mp ws _ => (c, m_add c f mp ws s)
+               | SRemove f _ => (c, m_remove f s)
+               | SHide f _ => (c, m_hide f s)
+               | SClear _ => (c, m_clear s)
+               | SFind _ _ => (c, s)
+               | SSetCfg pats fz rwon rw _ =>
+                   (mkCfg pats (c_workspaces c) fz rwon (fun x => match sget x rw with Some o => o | None => x end), s)
+               end) steps (c0, m_init)).
 
 Definition check_case (k : case) : bool :=
   let c := cfg_of k in
-  forallb (fun pr => optstr_eqb (match_pattern (compile_patterns (k_patterns k)) (fst pr)) (snd pr)) (k_mp k)
+  forallb (fun pr => optstr_eqb (match_pattern (compile_patterns (fst (fst pr))) (snd (fst pr))) (snd pr)) (k_mp k)
   && check_steps c m_init (k_steps k)
   && nlist_eqb (m_sizes (final_state c (k_steps k))) (k_sizes k).
